@@ -272,6 +272,21 @@ func (m *SessionManager) RemoveSession(id uint16) {
 	}
 }
 
+// detach removes the session from the table if it is still registered there
+// and reports whether it did. Whoever ends a session calls it first: only the
+// caller that gets true owns the teardown, so a session is torn down once.
+func (m *SessionManager) detach(session *Session) bool {
+	m.mu.Lock()
+	defer m.mu.Unlock()
+
+	if current, ok := m.sessions[session.ID]; !ok || current != session {
+		return false
+	}
+	m.unindexLocked(session.ClientMAC.String(), session.ID)
+	delete(m.sessions, session.ID)
+	return true
+}
+
 // unindexLocked drops the MAC index entry of a session that is being removed,
 // unless the entry already refers to a newer session of the same client.
 // The caller holds m.mu.
